@@ -323,6 +323,9 @@ class JsonSchemaGenerator:
             value = self.generate_for_field(field, options=options)
             if value is None:
                 continue
+            # parser.fields is keyed by the case-folded name for case-insensitive fields,
+            # the data carries field.name
+            name = field.name
             properties[name] = value
             if field.dependencies:
                 dependent_required[name] = field.dependencies
